@@ -33,8 +33,10 @@ BOUNDARY_PAIRS = [
 ]
 STEMS = {1: "src/f1", 2: "src/f2", 3: "src/g3", 4: "lib/h4", 5: "lib/deep/k5",
          6: "../outside/o6",                      # a regular file outside the project (symlink target only)
-         7: "lnk7", 8: "src/lnk8"}                # symbolic links (top level / inside the scanned tree)
-FILE_STEMS = [1, 2, 3, 4, 5]                      # stems the ordinary generators write to
+         7: "lnk7", 8: "src/lnk8",                # symbolic links (top level / inside the scanned tree)
+         9: "f1", 10: "lib/f1"}                   # same base name as src/f1, at the root and in another directory
+FILE_STEMS = [1, 2, 3, 4, 5, 9, 10]               # stems the ordinary generators write to
+SUBDIRS = ["src", "lib"]                          # working directories of runs started below the project root
 OUTSIDE_STEMS, LINK_STEMS = [6], [7, 8]
 CUR_VERSION = 3                                   # CACHE_VERSION (the run compares cache.json's version with the model's)
 FOREIGN_VERSIONS = [v for v in range(0, CUR_VERSION + 3) if v != CUR_VERSION]
@@ -202,8 +204,12 @@ def rand_history(rng, ncontents, nops=None, corrupt=True):
             elif k != "x":
                 h.append(("C", k))
         else:
-            ex = [rng.choice(paths)] if rng.random() < 0.15 else []
-            h.append(("X", rng.choice(CMDS), ex, t))
+            # (-x patterns are by base name: only stems whose base name is unique)
+            ex = [rng.choice([q for q in paths if q[0] in (2, 3, 4, 5)])] if rng.random() < 0.15 else []
+            if rng.random() < 0.2:
+                h.append(("XC", rng.choice(CMDS), rng.choice(SUBDIRS), t))
+            else:
+                h.append(("X", rng.choice(CMDS), ex, t))
     h.append(("X", rng.choice(CMDS), [], t + rng.choice([0, 1])))
     return h
 
@@ -283,6 +289,25 @@ def symlink_history(rng, contents, tab, groups):
     return h
 
 
+def cwd_history(rng, contents, tab, groups):
+    """Runs from the project root and from a sub-directory against the same project cache, with files of equal name,
+    mtime second and size in both places (./f1.rs seen from src/ or lib/ and from the root)."""
+    t = T0 + rng.randrange(0, 1000)
+    ext = rng.choice([1, 2, 10])
+    sub = rng.choice(SUBDIRS)
+    inner = ({"src": 1, "lib": 10}[sub], ext)
+    a, b = rng.sample(rng.choice(groups), 2) if groups else rng.sample(range(1, len(contents) + 1), 2)
+    xc = lambda: rng.choice(CMDS)
+    h = [("W", (9, ext), a, t), ("W", inner, b, t)]
+    if rng.random() < 0.4:
+        h.append(("W", ({"src": 10, "lib": 1}[sub], ext), rng.randint(1, len(contents)), t))
+    first, second = (("XC", xc(), sub, t + 2), ("X", xc(), [], t + 3)) if rng.random() < 0.5 else (("X", xc(), [], t + 2), ("XC", xc(), sub, t + 3))
+    h += [first, second]
+    if rng.random() < 0.5:
+        h += [("W", inner, a, t + 4), ("W", (9, ext), b, t + 4), ("XC", xc(), sub, t + 5), ("X", xc(), [], t + 6), ("XF", xc(), [inner, (9, ext)], t + 7)]
+    return h
+
+
 def norm_history(h):
     """History read back from JSON (lists) -> the tuple form the generators produce."""
     out = []
@@ -305,6 +330,8 @@ def norm_history(h):
                 out.append(tuple(o))
         elif k == "K":
             out.append(("K", tuple(o[1]), tuple(o[2])))
+        elif k == "XC":
+            out.append(("XC", o[1], o[2], o[3]))
         else:
             out.append((k, o[1], [tuple(q) for q in o[2]], o[3]))
     return out
@@ -390,6 +417,9 @@ def ops_wire(h):
         elif o[0] == "XF":
             ex = [p for p in sorted(live | set(links)) if p not in o[2]]
             out.append("X:%s:%s:%d" % (o[1], "/".join(wpath(p) for p in ex) or "-", o[3]))
+        elif o[0] == "XC":                    # run started in a sub-directory: scans that directory only
+            ex = [p for p in sorted(live | set(links)) if p in links or not STEMS[p[0]].startswith(o[2] + "/")]
+            out.append("X:%s:%s:%d" % (o[1], "/".join(wpath(p) for p in ex) or "-", o[3]))
         else:
             ex = list(o[2]) + [p for p in sorted(live | set(links)) if (p in links or p[0] in OUTSIDE_STEMS) and p not in o[2]]
             out.append("X:%s:%s:%d" % (o[1], "/".join(wpath(p) for p in ex) or "-", o[3]))
@@ -457,6 +487,12 @@ def model_out(kind, seg):
     return ("totals", (len(vs),) + tuple(sum(v[i] for v in vs) for i in range(4)))
 
 
+def abs_key(sb, p):
+    """The cache key of model path p: std::path::absolute of the path as the tool sees it = the physical working
+    directory joined with the relative path, `.` components dropped, `..` kept, symbolic links not resolved."""
+    return os.path.realpath(sb.proj) + "/" + real_path(p)
+
+
 def read_cache(sb, contents):
     """Canonical view of .sloc-guard/cache.json in the model driver's format (hash class left to the caller)."""
     p = os.path.join(sb.proj, ".sloc-guard", "cache.json")
@@ -465,7 +501,7 @@ def read_cache(sb, contents):
     try:
         j = json.load(open(p))
         hs = {hashlib.sha256(t.encode()).hexdigest(): cid for cid, t in enumerate(contents, 1)}
-        inv = {"./" + real_path((s, e)): (s, e) for s in STEMS for e in EXTS}
+        inv = {abs_key(sb, (s, e)): (s, e) for s in STEMS for e in EXTS}
         ents = []
         for k, e in j["files"].items():
             st = e["stats"]
@@ -487,7 +523,7 @@ def corrupt_cache(sb, kind, rng=None, offset=None, forge=None, foreign=None):
             if not (isinstance(j, dict) and isinstance(j.get("files"), dict)):
                 return
             j["version"] = v
-            e = j["files"].get("./" + real_path(path))
+            e = j["files"].get(abs_key(sb, path))
             if e is not None:
                 e["stats"] = dict(zip(("total", "code", "comment", "blank", "ignored"), stats))
             if not ign:
@@ -501,7 +537,7 @@ def corrupt_cache(sb, kind, rng=None, offset=None, forge=None, foreign=None):
         # in-place edit that keeps the file well-formed: replace the statistics of one entry
         try:
             j = json.load(open(p))
-            e = j["files"].get("./" + real_path(forge[0]))
+            e = j["files"].get(abs_key(sb, forge[0]))
             if e is not None:
                 e["stats"] = dict(zip(("total", "code", "comment", "blank", "ignored"), forge[1]))
                 open(p, "w").write(json.dumps(j, indent=2))
@@ -587,10 +623,18 @@ def replay_history(exe, contents, h, rng=None, threads="2", trunc_offsets=None):
                     corrupt_cache(sb, o[1], rng, offset=o[2] if len(o) > 2 else None)
             else:
                 env = {"SGV_NOW": str(o[3]), "RAYON_NUM_THREADS": threads}
-                args = cmd_args(o[1], [], only=o[2]) if o[0] == "XF" else cmd_args(o[1], o[2])
-                un = sb.run(exe, args + ["--no-sloc-cache"], env=env)
-                ca = sb.run(exe, args, env=env)
+                cwd = sb.proj
+                if o[0] == "XC":
+                    # (the configuration file is looked up in the working directory only, the project root - hence the cache -
+                    # by walking up: name the project's configuration explicitly so that the run differs by its cwd only)
+                    args, cwd = cmd_args(o[1], []) + ["-c", os.path.join(sb.proj, ".sloc-guard.toml")], os.path.join(sb.proj, o[2])
+                    os.makedirs(cwd, exist_ok=True)
+                else:
+                    args = cmd_args(o[1], [], only=o[2]) if o[0] == "XF" else cmd_args(o[1], o[2])
+                un = sb.run(exe, args + ["--no-sloc-cache"], cwd=cwd, env=env)
+                ca = sb.run(exe, args, cwd=cwd, env=env)
                 view, hsh = read_cache(sb, contents)
                 runs.append(dict(kind=o[1], t=o[3], cached=(ca[0], normalise(o[1], ca[1], sb.proj), ca[2]),
-                                 uncached=(un[0], normalise(o[1], un[1], sb.proj), un[2]), cache=view, hash=hsh, langs=list(langs)))
+                                 uncached=(un[0], normalise(o[1], un[1], sb.proj), un[2]), cache=view, hash=hsh, langs=list(langs),
+                                 subdir=o[2] if o[0] == "XC" else None))
     return runs
